@@ -617,3 +617,14 @@ PROPS["C13"]["level_text"] = ("Partial proof: both clauses are theorems about th
     " and every character is carried by the enabled mode the plan assigns to it or, for at most the last four characters after a C40/Text/X12/EDIFACT segment, by the end-of-data ASCII fallback (tail_clause: planner model's own plan, all inputs and configurations,"
     " inside the decidable side condition planOK evaluated on every plan of the sweep); outside the side conditions: reference decoder's mode trace as oracle.")
 PROPS["C13"]["unproved"] = ["latches_planned for plans that use EDIFACT before the final stretch or latch into a non-ASCII mode within the last four characters; tail_clause without the side condition planOK"]
+
+# C02 against the reference decoder (session 4): first conformance theorems
+PROPS["C02"]["lean"] = list(PROPS["C02"]["lean"]) + ["DM.Props.C02Spec"]
+PROPS["C02"]["explanation"] += (" Conformance theorems against the independent reference decoder itself (DM/Props/C02Spec.lean; toolkit DM/Lemmas/SpecStep, SpecAscii, SpecB256, SpecFuel): spec_ascii_roundtrip - for the pure ASCII plan (both plan forms),"
+    " every message of bytes and every symbol list, a successful run of the encoder model yields a stream that DM.Spec.Stream.decode accepts and maps to the message, with no latch, an all-ASCII trace, exactly the symbol's number of data codewords and the padding"
+    " position where the encoder's codewords end (none if the symbol is exactly full); the same behind FNC1 / Macro 05 / Macro 06 header codewords (the decoder re-creates header and trailer); spec_b256_roundtrip (+ _nil, _header) - the pure Base 256 plan with all three"
+    " forms of the length field (to the end of the symbol, one codeword, two codewords) and the 255-state randomisation; spec_decode_finished - for every codeword list, an answer of the reference decoder comes from a run that reached a final state (its fuel always suffices: every step"
+    " decreases 2 x codewords left + [mode != ASCII]), so the oracle never reports a truncated run. asciiLoop_specGen is stated for arbitrary plans, ready for the mixed-plan invariant.")
+PROPS["C02"]["level_text"] = ("Partial proof: shape of every successful run (listed symbol, exact length, standard padding reached in ASCII mode) for all plans; conformance against the independent reference decoder as theorems for the pure ASCII and pure Base 256 plans"
+    " incl. FNC1 / Macro headers, all length-field forms and padding (spec_ascii_roundtrip, spec_b256_roundtrip); for the other modes and mixed plans the reference decoder is the oracle on every stream of the sweep, and the encoder model is tied to the code by correspondence on real and injected plans.")
+PROPS["C02"]["unproved"] = ["spec_roundtrip for C40 / Text / X12 / EDIFACT segments and mixed plans against the reference decoder (proved against the crate's decoder model: mixed_roundtrip_E)"]
